@@ -25,6 +25,7 @@ import (
 
 	"github.com/anishathalye/porcupine"
 	"github.com/cenkalti/rain/v2/internal/resumer/boltdbresumer"
+	"github.com/cenkalti/rain/v2/internal/verifhook"
 	"github.com/cenkalti/rain/v2/torrent"
 	"github.com/cenkalti/rain/v2/verifx/benc"
 	"github.com/cenkalti/rain/v2/verifx/gen"
@@ -766,6 +767,20 @@ func concHistoryBody(k int) {
 		}
 	}()
 	run.Eval(1)
+	// two histories out of three widen the windows between (not inside) the registry's critical sections: after the
+	// registry entry is gone and before its database record is deleted, and between reserving id/port and inserting
+	var hits atomic.Int64
+	defer func() { run.Count("delay_points_hit", hits.Load()) }()
+	if k%3 != 0 {
+		dmax := int64(1+k%4) * int64(time.Millisecond)
+		verifhook.Set(func(name string) {
+			if name == "session.remove.unlocked" || name == "session.add.reserved" {
+				n := hits.Add(1)
+				time.Sleep(time.Duration((n*7919 + int64(k)*104729) % dmax))
+			}
+		})
+		defer verifhook.Set(nil)
+	}
 	l := &gen.Layout{Name: "c", PieceLen: 16384, Seed: int64(k), Single: true, Files: []gen.FileSpec{{Length: 5000}}}
 	tb := gen.TorrentBytes(l.InfoBytes(l.Truth()), nil, nil)
 	nclients := 2 + r.Intn(4)
